@@ -105,7 +105,14 @@ def replace_search_rule(prog, res, f, cont, elem_name_re, arg_name):
                 if len(asg) == 1:
                     hit = R.render(f.nodes[asg[0]]['ch'][0])
     if not hit:
-        res.viol('replace-search', inst, f.loc(fors[0]['id']), 'the search does not remember the index of the element whose name equals the argument\'s name exactly', function=f.sig, expr='match')
+        # second idiom: write at the loop index and return inside the loop; append after the loop
+        early = early_return_idiom(f, R, lf, cont, elem_name_re, arg_name)
+        if early is True:
+            res.ok('replace-search', inst, f.loc(fors[0]['id']), 'writes the first exact-name match in place and returns, otherwise appends after the loop', function=f.sig, expr='decision')
+        elif early is None:
+            res.undecided('replace-search', inst, f.loc(fors[0]['id']), 'the replace-or-append logic is not written in a form the rule knows (sentinel index or early return)', function=f.sig, expr='match')
+        else:
+            res.viol('replace-search', inst, f.loc(fors[0]['id']), early, function=f.sig, expr='match')
         return
     # the decision
     dec = None
@@ -130,6 +137,37 @@ def replace_search_rule(prog, res, f, cont, elem_name_re, arg_name):
                  function=f.sig, expr='decision')
     else:
         res.ok('replace-search', inst, f.loc(dec['id']), 'appends iff no element has exactly the argument\'s name, otherwise writes at the matched index only', function=f.sig, expr='decision')
+
+
+def early_return_idiom(f, R, lf, cont, elem_name_re, arg_name):
+    """for (i..) if (name(i) == arg.name) { <write at [i]>; return; }  push_back(arg)   -> True / None (unknown) / text (wrong)"""
+    for n in f.all_nodes({'IfStmt'}):
+        if n['id'] not in f.descendants(lf['body']) and n['id'] != f.strip(lf['body']):
+            continue
+        c = R.render(n['cond'])
+        m = re.match(r'^!\(\(bool\)(.*)\.compare\((.*)\)\)$', c) or re.match(r'^\((.*) == (.*)\)$', c) or re.match(r'^std::operator==\((.*),(.*)\)$', c)
+        if not m:
+            continue
+        sides = {m.group(1), m.group(2)}
+        el = elem_name_re % lf['name']
+        el2 = el.replace(r'\.parameter\(', r'\._parameters\[').replace(r'\.group\(', r'\._groups\[')
+        if not (any(re.match(el, s_) or re.match(el2.replace(r'\)\.', r'\]\.'), s_) for s_ in sides) and arg_name in sides):
+            continue
+        body = f.descendants(n['then'])
+        rets = [x for x in body if f.nodes[x]['k'] == 'ReturnStmt']
+        writes = [f.nodes[x] for x in body if f.nodes[x]['k'] == 'CXXOperatorCallExpr' and f.nodes[x].get('op') == '[]' and R.render(f.nodes[x]['args'][0]) == 'this.' + cont]
+        if not rets:
+            return None
+        if not writes or any(R.render(w['args'][1]) != 'local:' + lf['name'] for w in writes):
+            return 'the matched element is not the one written (index %s)' % [R.render(w['args'][1]) for w in writes]
+        # append after the loop, unconditionally
+        top = f.nodes[f.body]['ch']
+        after = top[top.index(lf['for']) + 1:] if lf['for'] in top else []
+        pb = [f.nodes[x] for a in after for x in f.descendants(a) if f.nodes[x]['k'] == 'CXXMemberCallExpr' and f.nodes[x]['callee']['name'] == 'push_back' and R.render(f.nodes[x]['obj']) == 'this.' + cont]
+        if len(pb) == 1 and R.render(pb[0]['args'][0]) == 'arg0':
+            return True
+        return 'no append of the argument after the search loop'
+    return None
 
 
 def edit_order_rule(prog, res):
@@ -194,7 +232,7 @@ def validate_first_rule(prog, res):
         for i in f.all_nodes({'IfStmt'}):
             c = R.render(i['cond'])
             ths = [f.nodes[x] for x in f.descendants(i['then']) if f.nodes[x]['k'] == 'CXXThrowExpr']
-            if re.match(r'^!\(this\.isDimensionConsistent\(arg0\.size,(local:\w+|arg1)\)\)$', c) and ths and all(t.get('throw_t') == 'std::range_error' for t in ths):
+            if re.match(r'^!\(this\.isDimensionConsistent\(arg0\.size,(.*)\)\)$', c) and ths and all(t.get('throw_t') == 'std::range_error' for t in ths):
                 guard = i
                 gdims = re.match(r'^!\(this\.isDimensionConsistent\(arg0\.size,(.*)\)\)$', c).group(1)
         if guard is None:
